@@ -139,6 +139,41 @@ def generate(rng: random.Random, tier: str):
                     yield delete_range_case(fam, doc, a, c, sl)
 
 
+    # a dense stream for the planner alone (cheap: no history is recorded): replace_step / delete_range /
+    # replace_range asked for many ranges and slices - slices cut across several levels (open on both sides to
+    # different depths), slices ending inside nodes with required content, ranges whose ends lie in different top-level
+    # nodes (one inside an isolating node, one outside)
+    for fam in gen.FAMILY + gen.EXTRA_FAMILY:
+        g, docs = S.family_docs(rng, fam, 8 if quick else 80)
+        for doc in docs:
+            ps = S.boundary_positions(doc)
+            deep = _deep_positions(doc, ps)
+            for _ in range((40 if fam in ("strict", "iso", "isoli", "table") else 20) if quick else 80):
+                a, c = sorted((rng.choice(deep if rng.random() < 0.5 else ps), rng.choice(deep if rng.random() < 0.5 else ps)))
+                src = rng.choice(docs)
+                sps = S.boundary_positions(src)
+                sdeep = _deep_positions(src, sps)
+                x, y = sorted((rng.choice(sdeep if rng.random() < 0.6 else sps), rng.choice(sdeep if rng.random() < 0.6 else sps)))
+                try:
+                    sl = src.slice(x, y, rng.random() < 0.2)
+                except ValueError:
+                    sl = Slice.empty
+                r = rng.random()
+                if r < 0.5:
+                    yield planner_case(fam, doc, a, c, sl)
+                elif r < 0.7:
+                    yield delete_range_case(fam, doc, a, c)
+                else:
+                    yield delete_range_case(fam, doc, a, c, sl)
+
+
+def _deep_positions(doc, ps):
+    """the deepest third of the positions (inside nested lists, cells, figures): slices cut between them are open to
+    several levels and ranges between them close and re-open several nodes"""
+    ds = sorted(ps, key=lambda p: -doc.resolve(p).depth)
+    return ds[: max(1, len(ds) // 3)]
+
+
 def rebuild(desc):
     sc = gen.family(desc["family"])
     if desc.get("case") == "replace_range_plan":
